@@ -132,6 +132,9 @@ static void hang(const char *why)
 	_exit(4);
 }
 
+static unsigned coarse_point = 8; /* VP_Q_DRAIN: first observation point of a pass of the worker loop (the inbox exchange) */
+static int rr_next;
+static unsigned gvt_only[VS_MAX];
 static unsigned long poll_ctr;
 static int poll_rr;
 /* skew: a thread that reaches the designated observation point is parked for a random number of scheduling
@@ -183,6 +186,15 @@ static int pick_next(int me, int me_runnable)
 			if(cand[i] == want)
 				return want;
 		/* divergence from the script: fall through to the policy */
+	}
+	if(policy == 4) {
+		for(int k = 1; k <= n_thr; ++k) {
+			int want = (me + k) % n_thr;
+			for(int i = 0; i < n; ++i)
+				if(cand[i] == want && want != me)
+					return want;
+		}
+		(void)rr_next;
 	}
 	if(policy == 2) {
 		int best = cand[0];
@@ -254,6 +266,16 @@ void vs_yield(unsigned point, unsigned long site)
 			quantum_left = 1 + (unsigned)(vs_rand() % (sw_den * 2));
 			do_switch = 1;
 		}
+	} else if(policy == 4) {
+		/* iteration-granular interleaving: a thread keeps the processor for one whole pass of its main loop
+		 * (one batch, one GVT step) and is switched out only at the point that opens the next pass */
+		if(point == coarse_point)
+			gvt_only[me] = 0;
+		else if(point == 0 && site == 1)
+			gvt_only[me]++;
+		/* spin loops must yield: the barrier loops, and a loop that only polls the GVT (no batch in between) */
+		do_switch = (point == coarse_point && (vs_rand() % sw_den) < sw_num) || (point == 0 && (site == 2 || site == 3)) ||
+		    (point == 0 && site == 1 && gvt_only[me] >= 2);
 	} else if(policy == 2) {
 		do_switch = 1;
 		for(int i = 0; i < n_pct; ++i)
